@@ -292,6 +292,37 @@ def dcc_values(d):
     d.reach()
 
 
+@meta(bounds="a transfer that is begun and abandoned: the first segment of a segmented ReadProperty request (sequence number 0, "
+             "more-follows, proposed window symbolic 1..4), then symbolically nothing / the same segment again / a segment out of "
+             "sequence (number 2) / a segment-ack out of the blue, then silence: within 60 s of virtual time (the segment "
+             "timeout is 1.5 s, four of them are allowed for a missing segment) the device holds no transaction and no timer, "
+             "and a valid request with the same invoke ID is answered",
+      outside="longer abandoned transfers",
+      stubs=STUBS)
+def half_open(d):
+    w, lan, dev, peer, av = make_world()
+    win = d.int(1, 4, 'proposed_window')
+    inv = 0xEE                      # the invoke ID check_health uses afterwards
+    first = bytes([0x0C, 0x05, inv, 0x00, win, 0x0C, 0x0C, 0x00, 0x80, 0x00, 0x01])
+    peer.send(dev.address, nl.frame(first, True))
+    w.run(until=w.clock)
+    follow = d.pick(["nothing", "same-again", "out-of-sequence", "stray-segment-ack"], 'then')
+    if follow == "same-again":
+        peer.send(dev.address, nl.frame(first, True))
+    elif follow == "out-of-sequence":
+        peer.send(dev.address, nl.frame(bytes([0x0C, 0x05, inv, 0x02, win, 0x0C, 0x19, 0x55]), True))
+    elif follow == "stray-segment-ack":
+        peer.send(dev.address, nl.frame(bytes([0x40, inv, 0x00, win]), False))
+    w.run(until=w.clock + 60.0)
+    r = nl.residue(dev)
+    if r:
+        raise Violation("leftover-transaction", residue=r, after="abandoned-transfer", then=follow, seconds=60)
+    if not w.idle():
+        raise Violation("leftover-timer", after="abandoned-transfer", then=follow, seconds=60)
+    check_health(d, w, lan, dev, peer, "abandoned-transfer")
+    d.reach()
+
+
 @meta(bounds="garbage that claims to be relayed from a remote network: station G sends a frame whose NPCI names source "
              "network 5 (SADR 7) followed by a concrete first APDU octet and 0..n symbolic octets (or nothing); "
              "then the real router R relays a valid ReadProperty from network 5 (from station 7 or 9); order of the two symbolic",
@@ -487,6 +518,7 @@ def instances(tier):
                         label="network-message-%02x" % t))
     out.append(Inst(routed_noise, dict(n=1 if q else 3), budget=120 if q else 900, path_timeout=60))
     out.append(Inst(dcc_values, {}, budget=120 if q else 300, path_timeout=60))
+    out.append(Inst(half_open, {}, budget=120 if q else 300, path_timeout=60))
     if not q:
         out.append(Inst(layer_noise, dict(n=6, first=[1, 0x20]), budget=900, label="apdu-area,dnet"))
         out.append(Inst(layer_noise, dict(n=6, first=[1, 0x08]), budget=900, label="apdu-area,snet"))
